@@ -21,8 +21,8 @@ from pathlib import Path
 VERIF = Path(__file__).resolve().parent.parent
 REPO = Path(os.environ.get("SNAX_REPO", "/repo")).resolve()
 COQ = VERIF / "coq"
-EVID = VERIF / "evidence"
-REPLAYS = VERIF / "replays"
+EVID = Path(os.environ.get("VERIF_EVIDENCE_DIR", str(VERIF / "evidence")))  # mutant runs redirect this
+REPLAYS = Path(os.environ.get("VERIF_REPLAY_DIR", str(VERIF / "replays")))
 KNOWN_FILE = VERIF / "known_findings.json"
 COQFLAGS = ["-Q", str(COQ), "Snax"]
 GUARD = "SNAX_MLIR_VERIF"
@@ -337,7 +337,7 @@ def known_line(prop: str, what: str):
 
 def write_evidence(ctx: Ctx, *, obligations: list[str], discharged: list[str], checker_cmd: str,
                    trusted_base: list[str], assumptions: list[str], violations: int):
-    EVID.mkdir(exist_ok=True)
+    EVID.mkdir(parents=True, exist_ok=True)
     cov = {
         "obligations": max(1, len(obligations)) if obligations else 0,
         "discharged": len(discharged),
